@@ -25,6 +25,10 @@ CHECKS = {
          "Translation validation over all datagram contents: each of the 20 getters denotes a closed-form extraction term (offset, width, byte order, decoder) that must equal spec/broadcast_layout.json; for each of the 9 device types the delivered object's fields are traced to the getter of the same role, the class to the type's category, one callback per datagram, OFF normalisation by guard; fields of one device read disjoint wire ranges (independent of the table). inet_ntoa / utf-8 / isoformat / round are trusted.", "§4 C05"),
  "C06": ("proof", "normal form of the gate predicate; path/event analysis of the device builder incl. a frame whose model bytes are a literal outside the enum table",
          "Proof: the gate's normal form is exactly magic fef0 AND length in {165,168,159} and cannot raise; on the gate-false path the only effect is a debug log; no raising construct is evaluated before the gate; a gate-passing frame with a model code outside DeviceType reaches exactly one 'unknown' warning, no device and no exception.", "§4 C06"),
+ "C08": ("translation_validation", "extraction terms of every reply getter vs a reference layout; field<-getter wiring of the response dataclasses; sibling-offset agreement with the broadcast parser",
+         "Translation validation over all reply contents: the 14 StateMessageParser getters and the login session denote extraction terms equal to spec/reply_layout.json; each response field is assigned the getter of its role; independently of the tables, every field shared with the broadcast parser is read the same way a constant 58/59 bytes apart. Library decoders and float formatting are trusted.", "§4 C08"),
+ "C09": ("proof", "exception-escape analysis on the abstract interpreter's guarded raise paths (library may-raise table + try/except filtering along inlined calls); guard/typestate check of login success before later writes",
+         "Proof over arbitrary reply bytes (the replies are unconstrained symbols): every raising path of the three state queries ends in RuntimeError, every normal return is the response parsed from the last reply, 'successful' is exactly non-None and non-empty, and with an empty login reply the six guarded operations raise RuntimeError having written only the login frame. Exceptions of the asyncio streams themselves are outside the property.", "§4 C09"),
 }
 CHECKS.update(_MORE) if False else None
 NOT_YET = {}
